@@ -81,9 +81,11 @@ Fixpoint hands_take (limit : nat) (d : deck) (it : hiter) : option (list N) :=
            end
   end.
 (* HandIterator::combinations(): n = 52 - |mask|, k = |next| ; (0..k).fold(1, |x, i| x * (n - i) / (i + 1)) ; usize underflow = None *)
-Definition combinations (it : hiter) : option N :=
-  let msz := hand_size (hand_of_u64 Standard (hmask it)) in   (* Hand::from masks with Hand::mask() *)
-  let k := hand_size (hand_of_u64 Standard (hnext it)) in
+Definition combinations (d : deck) (it : hiter) : option N :=
+  (* Hand::from masks with Hand::mask(), the deck of the build; the constant 52 is literal in the source, so in the
+     short-deck build the announced size counts 52 - |mask| cards although only 36 - |mask| exist *)
+  let msz := hand_size (hand_of_u64 d (hmask it)) in
+  let k := hand_size (hand_of_u64 d (hnext it)) in
   if 52 <? msz then None else
   let n := 52 - msz in
   fold_left (fun acc i => match acc with
